@@ -83,12 +83,19 @@ def run(prop, case, exception_is_violation=False):
     if gaps:
         gaps = 'shuffled' if len(MC.describe_case(case)) % 4 == 0 else 'gaps'
     contracts.CONTEXT['fragment_keys_with_gaps'] = gaps
+    contracts.CONTEXT['base_graph_used_before'] = prop in ('C02', 'C11') and case['kind'] == 'virtual' and case.get('ctor') == 'from_graph'
     try:
         res = MC.execute(case)
     finally:
         contracts.CONTEXT['explicit_h_possible'] = True
         contracts.CONTEXT['fragment_keys_with_gaps'] = False
+        contracts.CONTEXT['base_graph_used_before'] = False
+        first_use_ok = contracts.CONTEXT.pop('first_use_succeeded', False)
     viol = []
+    if first_use_ok and res['error']:
+        # the same base-graph object resolved fine a moment ago (with fragments for its later fragment-less nodes); the
+        # plain case is judged elsewhere, so an exception here is the history's doing
+        viol.append(V(f'{prop.lower()}.exception_on_a_base_graph_used_before', f"{MC.describe_case(case)} raised {res['error']} on a base-graph object that had been resolved once before"))
     for r in contracts.take(prop) + contracts.take('HARNESS'):
         viol.append(V(r['clause'], f"{MC.describe_case(case)} :: {r['msg']}"))
     contracts.clear()
